@@ -3207,7 +3207,8 @@ Case_BaseLdurStur:
           goto EmitOp_Rd0_Rn5_Rm16;
         }
         else {
-          if (o0.as<Vec>().element_type() != o2.as<Vec>().element_type())
+          // The element operand is `Vm.<T>[index]` (a 128-bit register view).
+          if (o0.as<Vec>().element_type() != o2.as<Vec>().element_type() || !o2.as<Reg>().is_vec128())
             goto InvalidInstruction;
 
           // Only allowed vectors are: 4H, 8H, and 4S.
